@@ -2,7 +2,7 @@
    Statements only; K is an arbitrary field (FLaws K), so every statement holds in particular
    for all real field values (instance ROps) and is executed at Qc by the correspondence. *)
 From Coq Require Import Qcanon Reals.
-From DF Require Import Prelude FieldK NDArray Diff C04_proofs C04_linear C04_ring C04_uniform C04_witness C04_shift.
+From DF Require Import Prelude FieldK NDArray Diff C04_proofs C04_linear C04_ring C04_uniform C04_witness C04_shift Check_C04 C04_sound.
 
 (* --- runs: each maximal run of valid cells is differentiated on its own --- *)
 Theorem C04_whole_valid_line_is_one_run : forall (K : FOps) order h (r : list K),
@@ -177,3 +177,30 @@ Example C04_exactness_nonvacuous :
   qclist_eqb (map (d1_at QcOps a (qc 1)) [0; 1; 2; 3; 4]%nat) (qcl [0; 4; 8; 12; 16]%Q) = true.
 Proof. exact exactness_nonvacuous. Qed.
 Print Assumptions C04_exactness_nonvacuous.
+
+(* ---- the tie, proved: soundness of the correspondence checker.  A shard case that evaluates to
+   true certifies that the OBSERVED Field.diff array is diff_nd on the observed values and validity *)
+Theorem C04_check_sound : forall sh nvdim ax order h periodic restrict vals valid obs,
+  check_C04 (CDiff sh nvdim ax order h periodic restrict vals valid obs) = true ->
+  length vals = nprod (sh ++ [nvdim]) /\ length valid = nprod sh /\
+  qcl obs = to_list (sh ++ [nvdim])
+              (diff_nd QcOps sh nvdim ax order (qc h) periodic restrict
+                 (of_list (f0 QcOps) (sh ++ [nvdim]) (qcl vals)) (of_list true sh valid)).
+Proof. exact check_diff_sound. Qed.
+Print Assumptions C04_check_sound.
+(* transfer: every observed entry is the model's line derivative of its own grid line and component *)
+Theorem C04_accepted_diff_cell : forall sh nvdim ax order h periodic restrict vals valid obs i,
+  check_C04 (CDiff sh nvdim ax order h periodic restrict vals valid obs) = true ->
+  inb (sh ++ [nvdim]) i = true ->
+  nth (ravel (sh ++ [nvdim]) i) (qcl obs) 0%Qc
+  = nth (nth ax i 0%nat)
+        (diff_line QcOps order (qc h) periodic restrict
+           (line (sh ++ [nvdim]) (of_list (f0 QcOps) (sh ++ [nvdim]) (qcl vals)) ax i)
+           (line sh (of_list true sh valid) ax (removelast i)))
+        0%Qc.
+Proof. exact accepted_diff_cell. Qed.
+Print Assumptions C04_accepted_diff_cell.
+Example C04_accepted_diff_instance :
+  check_C04 (CDiff [4]%nat 1 0 1 1 false true [0;1;4;9]%Q [true;true;true;true] [0;2;4;6]%Q) = true.
+Proof. exact accepted_diff_instance. Qed.
+Print Assumptions C04_accepted_diff_instance.
